@@ -1,6 +1,4 @@
 package bloom
 
-import "sync"
-
-func vWatch(mu *sync.Mutex, p interface{})
-func vHeld(mu *sync.Mutex) bool
+func vWatch(mu interface{}, p interface{})
+func vHeld(mu interface{}) bool
